@@ -97,6 +97,24 @@ def thresholds():
     return out
 
 
+def escaped_keys():
+    """strings that are short in characters but long when written with escapes: every unit whose double-quoted form
+    takes 2..10 positions, repeated so that the raw length sits at the 128 simple-key threshold or the written length
+    at the reader's 1024 simple-key limit; plus two mixtures"""
+    out = []
+    for unit, esc in (('\U0001F600', 10), ('\u20ac', 6), ('\xe9', 4), ('\x01', 4), ('"', 2), ('\\', 2), ('\x85', 2)):
+        ns = {126, 127, 128}
+        for w in (1016, 1020, 1022, 1024, 1026, 1030):
+            n = w // esc
+            if n <= 130:
+                ns.update((n - 1, n, n + 1))
+        for n in sorted(ns):
+            out.append(unit * n)
+    out.append('\U0001F600' * 76 + '\u20ac' * 51)
+    out.append('a' * 60 + '\U0001F600' * 67)
+    return out
+
+
 def containers():
     """list/dict/set shapes with <= 4 nodes over a small leaf pool, plus sharing / recursion patterns.  Yields (name, factory)."""
     pool = [None, 1, 'a', '', 1.5, 'yes']
